@@ -198,6 +198,11 @@ pub fn quad_battery<Q: QuadApi>(rep: &mut Rep, q: &Q, m: &QuadModel, rng: &mut R
 
 fn run_quad_case<Q: QuadApi>(rep: &mut Rep, spec: &QuadSpec, path: u8, o: &VecOpts) {
     let data = gen_quads(spec);
+    if data.len() <= 300 && (rep.cfg.shard == 0 || rep.cfg.only.is_some()) {
+        // dumped in full for the offline re-check by run/logcheck.py
+        rep.note("input", J::Arr(data.iter().map(|&x| J::Str(x.to_string())).collect()));
+        rep.allow_events(80);
+    }
     let m = QuadModel::new(data.clone());
     let mut rng = Rng::new(spec.seed ^ 0xC05);
     if rep.trace {
@@ -373,6 +378,10 @@ pub fn occurrence_indices_bits(count: usize, cap: usize, invalid: bool, rng: &mu
 
 fn run_bin_case<B: BinApi>(rep: &mut Rep, spec: &BitSpec, path: u8, o: &VecOpts) {
     let bits = gen_bits(spec);
+    if bits.len() <= 300 && (rep.cfg.shard == 0 || rep.cfg.only.is_some()) {
+        rep.note("input", J::Arr(bits.iter().map(|&x| J::Str((x as u8).to_string())).collect()));
+        rep.allow_events(80);
+    }
     let m = BitModel::new(bits.clone());
     let mut rng = Rng::new(spec.seed ^ 0xC06);
     let built = guard(|| {
